@@ -54,8 +54,11 @@ def gen(rng, tier):
 
 def build(log):
     # the Sqrt / binary-float operations live in a second driver (harness/fdriver, see C05/C15)
-    from . import fcommon
-    return fcommon.build(log)
+    from . import fcommon, textcommon
+    ok, out = fcommon.build(log)
+    if not ok:
+        return ok, out
+    return textcommon.build(log)
 
 
 def float_side(fails):
@@ -98,12 +101,52 @@ def float_side(fails):
                           dict(implementation=line[:1500], step=key[1], driver="fdriver")))
 
 
+def text_side(fails):
+    """Parse / SetString / UnmarshalText / Scan live in the text driver (harness/tdriver, see C11-C13): receivers are
+    checked against the canonical-form predicate after malformed and well-formed input alike."""
+    from . import C12
+    rng = random.Random(int(os.environ.get("VERIF_SEED", "20261001")) + 12)
+    tier = os.environ.get("VERIF_TIER", "quick")
+    tc_ = [c for c in C12.gen(rng, "quick") if c["family"] in ("malformed", "short-exhaustive", "scan", "exponent-boundary", "inf")][:2500 if tier == "quick" else 8000]
+    for i, c in enumerate(tc_):
+        c["pid"] = "t%d" % i
+        c["line"] = " ; ".join([v.item() for v in c["vars"]] + ["O " + o for o in c["ops"]])
+    text = "\n".join("%s ; %s" % (c["pid"], c["line"]) for c in tc_) + "\n"
+    rc, out, dt = vlib.run_side(os.path.join(vlib.BUILD, "tdriver"), text, timeout=600)
+    JUDGE_STATS["text_driver_cases"] = len(tc_)
+    JUDGE_STATS["text_wf_checked"] = 0
+    byid = {c["pid"]: c for c in tc_}
+    if rc != 0:
+        fails.append((tc_[0], "text driver exited with status %d" % rc, dict(implementation=out[-1500:])))
+        return
+    seen = set()
+    for line in out.splitlines():
+        try:
+            key, opn, outcome, res, vs = vlib.parse_obs(line)
+        except Exception:
+            continue
+        c = byid.get(key[0])
+        if c is None or key[0] in seen:
+            continue
+        msg = "panic other than ErrNaN" if outcome == "crash" else None
+        for v in vs:
+            JUDGE_STATS["text_wf_checked"] += 1
+            w = pyspec.wf(v)
+            if w:
+                msg = "malformed Decimal: " + w
+        if msg:
+            seen.add(key[0])
+            fails.append((c, "canonical-form invariant violated at step %d (%s; text driver build/tdriver): %s" % (key[1], opn, msg),
+                          dict(implementation=line[:1500], step=key[1], driver="tdriver")))
+
+
 def judge(cases, g, m):
     fails = []
     JUDGE_STATS["wf_checked"] = 0
     JUDGE_STATS["equal_pairs_checked"] = 0
     if not any(c.get("family") == "replay" for c in cases):
         float_side(fails)
+        text_side(fails)
     for c in cases:
         if "vars" not in c:
             continue
